@@ -942,6 +942,59 @@ def malformed_stream(R):
                          where="constructor-non-vector")
 
 
+def long_chain_stream(R, tier):
+    """One operator applied n times in a row (n up to a few thousand) to pointers with and without vocabulary
+    and name: every application still returns the algebra's result (no failure that depends on the HISTORY of the
+    operand, such as an ever-growing name).  Exact oracles: negation and the inverses are sign changes /
+    permutations, the scalar factor is a power of two."""
+    ctx = R.ctx
+    ns = (40, 520, 1300) if tier == "quick" else (40, 250, 520, 1300, 3000)
+    ops = {
+        "neg": (lambda p: -p, lambda a, v: [-x for x in v]),
+        "inv": (lambda p: ~p, lambda a, v: o_inv(a, v)),
+        "neg-inv": (lambda p: -(~p), lambda a, v: [-x for x in o_inv(a, v)]),
+        "rinv": (lambda p: p.rinv(), lambda a, v: o_inv(a, v)),
+        "half-double": (lambda p: (p * 0.5) * 2, lambda a, v: list(v)),
+        "copy": (lambda p: p.copy(), lambda a, v: list(v)),
+    }
+    for alg in ALG:
+        d = 4
+        base_v = [F(1), F(-2), F(3, 4), F(5)]
+        for kind, name in (("v", "A"), ("n", "a"), ("n", None)):
+            for oname, (fn, orc) in ops.items():
+                for n in ns:
+                    case = {"op": "long-chain", "alg": alg, "d": d, "self": kind + ("+name" if name else ""), "operator": oname,
+                            "applications": n}
+                    ctx.count(" ".join(f"{k}={v}" for k, v in case.items()), branch="long-chain")
+                    p = R.mkp(base_v, alg, kind, name=name)
+                    want = list(base_v)
+                    failed = None
+                    with warnings.catch_warnings():
+                        warnings.simplefilter("ignore")
+                        for i in range(n):
+                            try:
+                                p = fn(p)
+                            except BaseException as e:  # noqa: BLE001  (RecursionError is the interesting one)
+                                if isinstance(e, (KeyboardInterrupt, SystemExit)):
+                                    raise
+                                failed = (i, f"{type(e).__name__}: {e}"[:90])
+                                break
+                            want = orc(alg, want)
+                    if failed:
+                        ctx.fail(dict(case, failed_at=failed[0]), failed[1], "the algebra's result, as for the first application",
+                                 where="long-chain-raises")
+                        continue
+                    if [float(x) for x in p.v] != [float(x) for x in want]:
+                        ctx.fail(case, [float(x) for x in p.v], [float(x) for x in want], where="long-chain-value")
+                    try:
+                        nm = p.name
+                        _ = None if nm is None else len(nm)
+                    except BaseException as e:  # noqa: BLE001
+                        if isinstance(e, (KeyboardInterrupt, SystemExit)):
+                            raise
+                        ctx.fail(case, f"reading .name: {type(e).__name__}", "a name or None", where="long-chain-name-raises")
+
+
 def run(ctx):
     R = Run(ctx)
     tier = ctx.tier
@@ -958,6 +1011,7 @@ def run(ctx):
             unary_stream(R, alg, 16, vs[2:4], tier)
             binary_stream(R, alg, 16, vs[1:4], tier)
     spy_stream(R, tier)
+    long_chain_stream(R, tier)
     memory_stream(R, tier)
     malformed_stream(R)
     import time as _t
